@@ -16,7 +16,7 @@ git -C /repo worktree add -q --detach $WT HEAD || exit 2
 bad=0; n=0
 for id in $ids; do
   n=$((n+1))
-  git -C $WT apply /verif/seeded/$id/patch.diff 2>/dev/null || (cd $WT && patch -p1 --fuzz=3 -s < /verif/seeded/$id/patch.diff >/dev/null 2>&1)
+  git -C $WT apply /verif/seeded/$id/patch.diff 2>/dev/null || { echo "SELFTEST $p: seeded change $id does not apply to HEAD any more (rebase it)"; bad=$((bad+1)); continue; }
   v=$(cd /verif && GOVC_REPO=$WT GOVC_OUT=$OUT /verif/bin/govc check $p --tier quick 2>&1 | grep -c '^VIOLATION')
   if [ "$v" -eq 0 ]; then echo "SELFTEST $p: seeded change $id is NO LONGER DETECTED"; bad=$((bad+1)); fi
   git -C $WT checkout -q -- . ; git -C $WT clean -fdq
